@@ -61,6 +61,8 @@ def jobs(tier, seed):
         for fr in ('cl', 'chunked1', 'chunked_ext', 'close', 'overrun'):
             js.append(dict(items=[['canon', fr, b]], mode='few'))
         js.append(dict(items=[['lf', 'chunked_ext', b], ['canon', 'cl', b]], mode='few'))
+    js.append(dict(items=[['canon', 'cl', 'huge'], ['canon', 'chunked1', 'text']], mode='few'))
+    js.append(dict(items=[['canon', 'chunked1', 'huge']], mode='few'))
     # an over-long body FIRST, then another exchange: the surplus must go away with the
     # connection (only deliveries in which the surplus arrives together with the last body
     # byte are offered, DESIGN.md section 6)
@@ -92,7 +94,13 @@ def run_job(job):
     else:
         plans = [[], list(range(1, total)), [total // 3, (2 * total) // 3],
                  list(range(1, total, 7))]
-        if total > 4096:
+        if total > 20000:
+            # > 64 KiB: no byte-at-a-time delivery, boundaries of the 4096-byte reads and of
+            # the writer's 65536-byte copy buffer instead
+            plans = [[], [total // 3, (2 * total) // 3], list(range(4096, total, 4096)),
+                     list(range(1000, total, 1000)), [65535], [65536], [65537],
+                     list(range(1, total, 997))]
+        elif total > 4096:
             plans += [[c + d] for c in range(4096, total, 4096) for d in (-1, 0, 1)] + \
                 [list(range(4096, total, 4096)), list(range(1000, total, 1000))]
     seen = set()
